@@ -120,6 +120,9 @@ func c05Run(c *mc.Ctx) {
 				writerBFS(c, "C05", WriterCfg{Kind: "default", FailAt: k, SinkMode: k, RichSink: true, Sizes: []int{1, 4095, 4097}, Reverse: rev}, depth)
 			}
 		}
+		if c.Mine() {
+			writerBFS(c, "C05", WriterCfg{Kind: "default", RichSink: true, SinkFlushFails: true, Sizes: []int{1, 4095, 4097}, Reverse: rev}, depth)
+		}
 		// regions and payloads beyond 1 MiB / 2 MiB
 		if c.Mine() {
 			writerBFS(c, "C05", WriterCfg{Kind: "default", Sizes: []int{5, 1<<20 + 1, 1 << 21}, Reverse: rev}, 3)
